@@ -21,6 +21,9 @@ package store
 import (
 	"bufio"
 	"context"
+	"go/ast"
+	"go/parser"
+	"go/token"
 	"encoding/binary"
 	"encoding/json"
 	"errors"
@@ -146,6 +149,7 @@ func TestVerifC08Child(t *testing.T) {
 	var aofW *AofWriter
 	var rdbW *RdbWriter
 	var sr *vfStepReader
+	var flushPol config.FlushPolicy
 	for _, op := range strings.Split(script, ";") {
 		f := strings.Fields(op)
 		if len(f) == 0 {
@@ -153,8 +157,19 @@ func TestVerifC08Child(t *testing.T) {
 		}
 		num := func(i int) int64 { v, _ := strconv.ParseInt(f[i], 10, 64); return v }
 		switch f[0] {
+		case "dflush":
+			// channel.storer.flush: fsync after every write / after a dirty size / after a duration (fsync is
+			// not a directory operation: the syscall list compared with the model is the same)
+			switch f[1] {
+			case "e":
+				flushPol = config.FlushPolicy{EveryWrite: true}
+			case "d":
+				flushPol = config.FlushPolicy{DirtySize: 8}
+			case "t":
+				flushPol = config.FlushPolicy{Duration: time.Nanosecond}
+			}
 		case "dnew":
-			st = NewStorer("vf", root, num(2), num(1), config.FlushPolicy{})
+			st = NewStorer("vf", root, num(2), num(1), flushPol)
 			st.VerifStopCollector()
 		case "dsetrun":
 			old := st.RunId()
@@ -1226,6 +1241,27 @@ func (p *c08Parent) reopenAlt(im c08Image, verify bool, what string, script stri
 	}
 	lines := []string{fmt.Sprintf("range=%d,%d rdb=%d,%d valid=%s removed=%s", l, r, rl, rs, vfDash(string(bits)), vfDash(strings.Join(removed, ",")))}
 
+	// ---- a SECOND re-opening after a first one that deleted files: the same answers, nothing more deleted
+	if len(removed) > 0 {
+		before, _ := os.ReadDir(dir)
+		st2 := NewStorer("vf", root, 0, 1<<20, config.FlushPolicy{})
+		st2.VerifStopCollector()
+		if err := st2.SetRunId(c08RunId); err == nil {
+			l2, r2 := st2.GetOffsetRange()
+			rl2, rs2 := st2.GetRdb()
+			after, _ := os.ReadDir(dir)
+			if l2 != l || r2 != r || rl2 != rl || rs2 != rs || len(after) != len(before) {
+				p.s.Violate("reopen-not-idempotent", fmt.Sprintf("first re-opening: range [%d,%d] snapshot (%d,%d), %d files left; a second one: range [%d,%d] snapshot (%d,%d), %d files left",
+					l, r, rl, rs, len(before), l2, r2, rl2, rs2, len(after)), replay)
+			}
+		}
+		p.s.Count("second_reopen_after_deletion")
+	}
+	if verify {
+		p.s.Count("cfg_verifyCrc_true")
+	} else {
+		p.s.Count("cfg_verifyCrc_false")
+	}
 	// ---- monitor: a snapshot is offered only if it was completely received
 	if rl != -1 || rs != -1 {
 		name := fmt.Sprintf("%d_%d.rdb", rl, rs)
@@ -1467,6 +1503,74 @@ func (p *c08Parent) genFaultScript(r *vfutil.Rand) string {
 	return strings.Join(ops, " ; ")
 }
 
+// genEdgeScripts: the degenerate-but-legal corners, FORCED on every run (not left to the random draw):
+// a rotation limit at / just above the header size, snapshots of 1 / 8 bytes (never verified: no room
+// for a footer), of 9 bytes with and without a valid footer, an empty live segment at the death, a
+// writer replaced on an empty live segment, a size limit of one byte with a snapshot held.
+func (p *c08Parent) genEdgeScripts() []string {
+	var out []string
+	seg := func(right *int64, n int) string {
+		h := vfutil.Hex(c08SrcSeg(p.salt, *right, n))
+		*right += int64(n)
+		return h
+	}
+	for _, logSize := range []int64{16, 17} {
+		right := int64(100)
+		ops := []string{fmt.Sprintf("dnew %d 0", logSize), "dsetrun " + c08RunId, "daofw 100"}
+		for i := 0; i < 3; i++ {
+			ops = append(ops, "daofa "+seg(&right, 1))
+		}
+		ops = append(ops, "daofa "+seg(&right, 3), "daofc")
+		out = append(out, strings.Join(ops, " ; "))
+		p.s.Count(fmt.Sprintf("cfg_logSize_%d", logSize))
+	}
+	snapCase := func(tag string, b []byte) {
+		left := int64(500)
+		right := left
+		name := fmt.Sprintf("%d_%d.rdb", left, len(b))
+		ops := []string{"dnew 48 0", "dsetrun " + c08RunId, fmt.Sprintf("drdbw %d %d", left, len(b)), "drdba " + vfutil.Hex(b),
+			fmt.Sprintf("daofw %d", left), "daofa " + seg(&right, 5)}
+		out = append(out, "SNAP "+name+" "+vfutil.Hex(b)+" | "+strings.Join(ops, " ; "))
+		p.s.Count("edge_snapshot_" + tag)
+	}
+	snapCase("1_byte", []byte{0x52})
+	snapCase("8_bytes", []byte{0x52, 0x45, 0x44, 0x49, 0x53, 0x30, 0x30, 0x31})
+	withFooter := func(payload []byte) []byte {
+		return binary.LittleEndian.AppendUint64(append([]byte(nil), payload...), c08Crc(payload))
+	}
+	snapCase("9_bytes_footer", withFooter([]byte{0x52}))
+	snapCase("9_bytes_no_footer", []byte{0x52, 1, 2, 3, 4, 5, 6, 7, 8})
+	snapCase("9_bytes_zero", make([]byte, 9))
+	{ // the process dies with an EMPTY live segment; a writer replaced on an empty live segment
+		right := int64(100)
+		out = append(out, strings.Join([]string{"dnew 32 0", "dsetrun " + c08RunId, "daofw 100", "daofa " + seg(&right, 4), "daofc", fmt.Sprintf("daofw %d", right)}, " ; "))
+		out = append(out, strings.Join([]string{"dnew 32 0", "dsetrun " + c08RunId, "daofw 100", "daofw 100", "daofw 100"}, " ; "))
+		p.s.Count("edge_empty_live_segment_at_death")
+	}
+	{ // offset 0: a snapshot announced at offset 0, the stream continuing from 0; a stream alone from 0
+		right := int64(0)
+		b := withFooter([]byte{9, 8, 7})
+		ops := []string{"dnew 32 0", "dsetrun " + c08RunId, fmt.Sprintf("drdbw 0 %d", len(b)), "drdba " + vfutil.Hex(b), "daofw 0",
+			"daofa " + seg(&right, 20), "daofa " + seg(&right, 3), "daofc"}
+		out = append(out, "SNAP "+fmt.Sprintf("0_%d.rdb", len(b))+" "+vfutil.Hex(b)+" | "+strings.Join(ops, " ; "))
+		right = 0
+		out = append(out, strings.Join([]string{"dnew 32 0", "dsetrun " + c08RunId, "daofw 0", "daofa " + seg(&right, 20), "daofa " + seg(&right, 3)}, " ; "))
+		p.s.Count("edge_offset_0")
+	}
+	{ // a size limit of ONE byte, a snapshot held: the collector drops the snapshot and all but the newest segment
+		right := int64(700)
+		b := withFooter([]byte{1, 2, 3})
+		ops := []string{"dnew 24 1", "dsetrun " + c08RunId, fmt.Sprintf("drdbw 700 %d", len(b)), "drdba " + vfutil.Hex(b), "daofw 700"}
+		for i := 0; i < 3; i++ {
+			ops = append(ops, "daofa "+seg(&right, 9))
+		}
+		ops = append(ops, "dgc", "daofa "+seg(&right, 2), "dgc")
+		out = append(out, "SNAP "+fmt.Sprintf("700_%d.rdb", len(b))+" "+vfutil.Hex(b)+" | "+strings.Join(ops, " ; "))
+		p.s.Count("cfg_maxSize_1")
+	}
+	return out
+}
+
 // genIdScript: two independent histories (ids a*, b*), lives of the writers in their
 // directories, a new process choosing among several ids, an id change (directory renamed),
 // switches between existing ids, deletions, a directory re-created.
@@ -1631,7 +1735,15 @@ func (p *c08Parent) genScript(r *vfutil.Rand) (string, int64, int64) {
 	if r.Chance(1, 5) {
 		maxSize = 0
 	}
-	ops := []string{fmt.Sprintf("dnew %d %d", logSize, maxSize), "dsetrun " + c08RunId}
+	var ops []string
+	fl := vfutil.Pick(r, []string{"-", "-", "e", "d", "t"})
+	if fl != "-" {
+		ops = append(ops, "dflush "+fl)
+	}
+	p.s.Count("cfg_flush_" + fl)
+	p.s.Count(fmt.Sprintf("cfg_logSize_%d", logSize))
+	p.s.Count(fmt.Sprintf("cfg_maxSize_zero_%v", maxSize == 0))
+	ops = append(ops, fmt.Sprintf("dnew %d %d", logSize, maxSize), "dsetrun "+c08RunId)
 	p.snap = map[string][]byte{}
 	var right int64 = -1 // end of the held stream; -1: nothing held
 	var snapLeft int64 = -1
@@ -1807,6 +1919,16 @@ func TestVerifC08(t *testing.T) {
 		s.Count("fault_injection_immutable_dir")
 	} else {
 		s.Count("note_fault_injection_immutable_dir_unsupported")
+	}
+	// process-global state of the package (source fact): none of its package-level variables is written
+	if vars, written, err := c08GlobalsWritten(); err != nil {
+		t.Errorf("C08 harness infrastructure (no statement about the cache): package source not parsed: %v", err)
+	} else {
+		s.Add("fact_pkg_store_global_vars", len(vars))
+		s.Add("fact_pkg_store_global_vars_written", len(written))
+		if len(vars) == 0 || len(written) > 0 {
+			t.Errorf("C08 source fact (broken tie, no statement about the cache): package-level variables of pkg/store %v, written after init: %v (the models assume none)", vars, written)
+		}
 	}
 	cur := ""
 	wd := vfWatchdog(s, time.Duration(vfutil.Scale(150, 1500))*time.Second, func() string { return cur })
@@ -2061,6 +2183,20 @@ func TestVerifC08(t *testing.T) {
 		script, _, _ := p.genScript(p.r)
 		runCase(script, salt, "gen")
 	}
+	{
+		salt := p.r.U64() % 1000000
+		p.salt = salt
+		for _, sc := range p.genEdgeScripts() {
+			p.snap = map[string][]byte{}
+			if rest, ok := strings.CutPrefix(sc, "SNAP "); ok {
+				hd, script, _ := strings.Cut(rest, " | ")
+				f := strings.Fields(hd)
+				p.snap[f[0]] = vfutil.UnHex(f[1])
+				sc = script
+			}
+			runCase(sc, salt, "edge")
+		}
+	}
 	for c := 0; c < vfutil.Scale(2, 12); c++ {
 		salt := p.r.U64() % 1000000
 		p.salt = salt
@@ -2167,6 +2303,72 @@ func (p *c08Parent) crashImages(ops []c08Op, script string) {
 			alter("crc", func(c []byte) []byte { c[1+p.r.Intn(8)] ^= byte(1 << p.r.Intn(8)); return c })
 			alter("truncated", func(c []byte) []byte { return c[:len(c)-1] })
 			alter("extended", func(c []byte) []byte { return append(c, 0x5a) })
+			// the tail / the payload / the whole file reads back as zeros (lost blocks), the file cut to its header
+			zero := func(from int) func(c []byte) []byte {
+				return func(c []byte) []byte {
+					for i := from; i < len(c); i++ {
+						c[i] = 0
+					}
+					return c
+				}
+			}
+			if !c08AllZero(b[headerSize:]) {
+				alter("tail_zero", zero(len(b)-1-p.r.Intn(len(b)-headerSize)))
+				alter("payload_zero", zero(headerSize))
+				alter("all_zero", zero(0))
+			}
+			alter("header_only", func(c []byte) []byte { return c[:headerSize] })
+			alter("half", func(c []byte) []byte { return c[:headerSize+(len(c)-headerSize)/2] })
+			// BENIGN alterations: the version byte and the reserved bytes are read by nobody
+			// (version_reserved_ignored): accepted, and every byte served is still the source's
+			benign := func(what string, f func(c []byte) []byte) {
+				a := im.clone()
+				a[name] = f(append([]byte(nil), b...))
+				p.reopenAlt(a, true, "benign_"+what, script, -1, -1)
+				s.Count("alterations_benign")
+			}
+			benign("reserved", func(c []byte) []byte { c[13+p.r.Intn(3)] ^= byte(1 << p.r.Intn(8)); return c })
+			benign("version", func(c []byte) []byte { c[0] ^= byte(1 << p.r.Intn(8)); return c })
+			// the position of the altered segment in the chain
+			var lefts []int64
+			for _, n2 := range imNames {
+				if strings.HasSuffix(n2, ".aof") && len(im[n2]) > headerSize {
+					l2, _ := strconv.ParseInt(strings.TrimSuffix(n2, ".aof"), 10, 64)
+					lefts = append(lefts, l2)
+				}
+			}
+			sort.Slice(lefts, func(i, j int) bool { return lefts[i] < lefts[j] })
+			myLeft, _ := strconv.ParseInt(strings.TrimSuffix(name, ".aof"), 10, 64)
+			switch {
+			case len(lefts) == 1:
+				s.Count("altered_segment_position_only")
+			case myLeft == lefts[0]:
+				s.Count("altered_segment_position_oldest")
+			case myLeft == lefts[len(lefts)-1]:
+				s.Count("altered_segment_position_newest")
+			default:
+				s.Count("altered_segment_position_middle")
+			}
+		}
+		// (3c) segments a crash left LIVE (header never rewritten: recorded size 0) — with data or empty:
+		// served without verification, refused with it; an empty one is not indexed at all
+		for _, name := range imNames {
+			b := im[name]
+			if !strings.HasSuffix(name, ".aof") || len(b) < headerSize || !(b[9] == 0 && b[10] == 0 && b[1] == 0) {
+				continue
+			}
+			if len(b) == headerSize {
+				s.Count("final_image_live_segment_empty")
+			} else {
+				s.Count("final_image_live_segment_with_data")
+				a := im.clone()
+				c := append([]byte(nil), b...)
+				c[headerSize+p.r.Intn(len(c)-headerSize)] ^= 1
+				a[name] = c
+				left, _ := strconv.ParseInt(strings.TrimSuffix(name, ".aof"), 10, 64)
+				p.reopenAlt(a, true, "altered_live_data", script, left, left+int64(len(b)-headerSize))
+				s.Count("alterations")
+			}
 		}
 		// (4) alterations of a committed snapshot that carries a checksum footer
 		for _, name := range imNames {
@@ -2232,6 +2434,25 @@ func (p *c08Parent) crashImages(ops []c08Op, script string) {
 				s.Count("snapshot_wrong_size_images")
 			}
 		}
+		// (4c) leftovers and strangers: a temporary file NEXT TO the committed snapshot of the same offsets
+		// (other bytes, shorter), files no writer produces — the answers and the bytes must not change
+		{
+			a := im.clone()
+			for _, name := range imNames {
+				if strings.HasSuffix(name, ".rdb") {
+					a[name+".tmp"] = []byte{0xde, 0xad}
+					s.Count("image_tmp_beside_committed")
+				}
+			}
+			a["stray.txt"] = []byte("not a cache file")
+			a["12x.aof"] = append(make([]byte, headerSize), 1, 2, 3)
+			a["7_.rdb"] = []byte{1}
+			a["_7.rdb"] = []byte{1}
+			a["1_2_3.rdb"] = []byte{1, 2, 3}
+			p.reopen(a, false, "strangers", script)
+			p.reopen(a, true, "strangers", script)
+			s.Count("image_stray_files")
+		}
 		// (5) files removed in ANY order (DelRunId = os.RemoveAll in readdir order; any
 		// subset of the final image may survive a death during it)
 		var names []string
@@ -2252,6 +2473,120 @@ func (p *c08Parent) crashImages(ops []c08Op, script string) {
 		// (6) life goes on after the restart: resume the writer, collect, die again
 		p.resume(im.clone(), script)
 	}
+}
+
+// c08GlobalsWritten: process-global state of pkg/store as a SOURCE FACT (dimension audit, session 5):
+// the package-level variables of the package's non-test files and those of them that some function
+// assigns, increments, takes the address of or stores into. The models treat the package as free of
+// mutable global state (every Storer / writer / reader is its own object); a variable that becomes
+// written makes that a question again -> broken tie, not a violation.
+func c08GlobalsWritten() (vars []string, written []string, err error) {
+	fset := token.NewFileSet()
+	pkgs, err := parser.ParseDir(fset, ".", func(fi os.FileInfo) bool {
+		return !strings.HasSuffix(fi.Name(), "_test.go") && !strings.HasPrefix(fi.Name(), "vf_")
+	}, 0)
+	if err != nil {
+		return nil, nil, err
+	}
+	global := map[string]bool{}
+	var files []*ast.File
+	for _, pk := range pkgs {
+		for _, f := range pk.Files {
+			files = append(files, f)
+			for _, d := range f.Decls {
+				if gd, ok := d.(*ast.GenDecl); ok && gd.Tok == token.VAR {
+					for _, sp := range gd.Specs {
+						for _, n := range sp.(*ast.ValueSpec).Names {
+							if n.Name != "_" {
+								global[n.Name] = true
+							}
+						}
+					}
+				}
+			}
+		}
+	}
+	isGlobal := func(e ast.Expr) (string, bool) {
+		for {
+			switch x := e.(type) {
+			case *ast.ParenExpr:
+				e = x.X
+				continue
+			case *ast.IndexExpr:
+				e = x.X
+				continue
+			case *ast.SliceExpr:
+				e = x.X
+				continue
+			case *ast.SelectorExpr:
+				e = x.X
+				continue
+			case *ast.StarExpr:
+				e = x.X
+				continue
+			case *ast.Ident:
+				if !global[x.Name] {
+					return "", false
+				}
+				if x.Obj != nil {
+					if _, ok := x.Obj.Decl.(*ast.ValueSpec); !ok {
+						return "", false // a local of the same name (parameter, :=)
+					}
+					// a ValueSpec inside a function is a local `var`
+					for _, f := range files {
+						for _, d := range f.Decls {
+							if fd, ok := d.(*ast.FuncDecl); ok && fd.Body != nil && fd.Body.Pos() <= x.Obj.Pos() && x.Obj.Pos() <= fd.Body.End() {
+								return "", false
+							}
+						}
+					}
+				}
+				return x.Name, true
+			}
+			return "", false
+		}
+	}
+	w := map[string]bool{}
+	for _, f := range files {
+		for _, d := range f.Decls {
+			fd, ok := d.(*ast.FuncDecl)
+			if !ok || fd.Body == nil {
+				continue
+			}
+			ast.Inspect(fd.Body, func(n ast.Node) bool {
+				switch x := n.(type) {
+				case *ast.AssignStmt:
+					if x.Tok != token.DEFINE {
+						for _, l := range x.Lhs {
+							if name, ok := isGlobal(l); ok {
+								w[name] = true
+							}
+						}
+					}
+				case *ast.IncDecStmt:
+					if name, ok := isGlobal(x.X); ok {
+						w[name] = true
+					}
+				case *ast.UnaryExpr:
+					if x.Op == token.AND {
+						if name, ok := isGlobal(x.X); ok {
+							w[name] = true
+						}
+					}
+				}
+				return true
+			})
+		}
+	}
+	for n := range global {
+		vars = append(vars, n)
+	}
+	for n := range w {
+		written = append(written, n)
+	}
+	sort.Strings(vars)
+	sort.Strings(written)
+	return vars, written, nil
 }
 
 func c08AllZero(b []byte) bool {
